@@ -52,7 +52,7 @@ fn gen(prop: &str, tier: Tier, seed: u64, em: &mut Emitter) {
         "C02" => sm::gen_c02(tier, seed, em),
         "C03" => sm::gen_c03(tier, seed, em),
         "C04" => newtypes::gen_c04(tier, seed, em, if cfg!(feature = "cfg_std") { 0 } else { 1 }),
-        "C05" => newtypes::gen_c05(tier, seed, em),
+        "C05" => newtypes::gen_c05(tier, seed, em, if cfg!(feature = "cfg_std") { 0 } else { 1 }),
         "C06" => sm::gen_c06(tier, seed, em),
         "C07" => cc14::gen_c07(tier, seed, em),
         "C08" => cc14::gen_c08(tier, seed, em),
